@@ -147,12 +147,27 @@ def scenario(run, e4, sc):
 def plan(run, tier, seed):
     run.require("live_keepalive_timing_checks", "live_back_to_zero_checks")
     n = 2 if tier == "quick" else 8
-    return [{"kind": "live", "scenario": {"bind": "tcp" if i % 2 == 0 else "unix", "idx": i}, "seed": seed, "tier": tier} for i in range(n)]
+    out = [{"kind": "live", "scenario": {"bind": "tcp" if i % 2 == 0 else "unix", "idx": i}, "seed": seed, "tier": tier} for i in range(n)]
+    # TLS with the handshake in the worker's main loop (do_handshake_on_connect): peers that fail or abandon the handshake
+    run.require("live_tls_handshake_inputs")
+    out.append({"kind": "live", "scenario": {"tls": True, "bind": "tcp", "idx": n, "n": 27 if tier == "quick" else 180}, "seed": seed, "tier": tier})
+    return out
 
 
 def shard(run, sh):
     from vlib import e4_live as e4
     sc = sh["scenario"]
+    if sc.get("tls"):
+        # the hostile-handshake workload of C05's TLS shard against the threaded worker: the worker must go on serving
+        from checks import c05
+        r = c05.tls_shard({"kind": "tls", "class": "gthread", "on_connect": True, "n": sc["n"], "seed": sh["seed"], "tier": sh.get("tier", "quick")})
+        run.case(("live-tls", sc["n"]))
+        run.count("live_tls_handshake_inputs", r.reach.get("tls_inputs", 0))
+        for mech, summary, case in r.violations:
+            run.violation("tls/" + mech.split("/", 1)[-1], summary, {"live": sc})
+        for reason in getattr(r, "inconclusive", []) or []:
+            run.inconclusive_because("tls scenario: %s" % reason)
+        return
     reason = None
     for attempt in range(3):
         v, reason, info = scenario(run, e4, sc)
